@@ -399,9 +399,10 @@ def check(rep, tier: str, master: int, only_idx=None) -> None:
                             "first_targets": [list(t) for t in r["targets"][:3]]})
     # minimise + replay each distinct violation signature once
     seen = set()
+    t_min0 = time.time()
     for v in viols:
-        key = (v["sig"].get("clause"), v["sig"].get("exc"), v["sig"].get("where"), v["sig"].get("injected"),
-               tuple(v["target"][:2]) if v["target"] else None)
+        # one report per (clause, exception, place); the injected site is detail, not identity
+        key = (v["sig"].get("clause"), v["sig"].get("exc"), v["sig"].get("where"), v["sig"].get("injected"))
         from simkit.report import match_finding
 
         if match_finding(rep.findings, _sig_public(v["sig"])) is not None:
@@ -411,7 +412,9 @@ def check(rep, tier: str, master: int, only_idx=None) -> None:
             continue
         seen.add(key)
         try:
-            mdoc, mtarget = minimise(v["doc"], v["target"], v["sig"])
+            # minimisation has a wall budget of its own: a change that breaks everything must not stall the report
+            budget = 150 if time.time() - t_min0 < 45 else 0
+            mdoc, mtarget = minimise(v["doc"], v["target"], v["sig"], budget=budget)
             again = run_case(mdoc, _abs_target(mtarget))
             if again["sig"] is None or again["sig"].get("clause") != v["sig"].get("clause"):
                 mdoc, mtarget = v["doc"], v["target"]
